@@ -1,5 +1,6 @@
 //! `rvh` — the Rust side of the correspondence check: calls the real raft-rs code in-process and
 //! writes a trace in the line protocol that the Lean driver `rvm` re-executes on the model.
+mod gen_cluster;
 mod gen_inflights;
 mod rng;
 
@@ -35,8 +36,71 @@ fn replay(path: &str, out: &mut dyn Write) -> u64 {
     n
 }
 
+fn json_str(s: &str) -> String {
+    let mut o = String::from("\"");
+    for c in s.chars() {
+        match c {
+            '"' => o.push_str("\\\""),
+            '\\' => o.push_str("\\\\"),
+            '\n' => o.push_str("\\n"),
+            c if (c as u32) < 0x20 => o.push(' '),
+            c => o.push(c),
+        }
+    }
+    o.push('"');
+    o
+}
+
+/// `rvh cluster --seed S --runs N --steps K [--reconfig] [--no-p] [--verbose] [--report FILE] [--voters V --learners L]`
+/// P traces go to stdout, one JSON line per run to the report file.
+fn cluster(args: &[String], seed: u64, out: &mut dyn Write) -> u64 {
+    let runs: u64 = arg(args, "--runs", 20);
+    let steps: u64 = arg(args, "--steps", 3000);
+    let reconfig = args.iter().any(|a| a == "--reconfig");
+    let emit_p = !args.iter().any(|a| a == "--no-p");
+    let verbose = args.iter().any(|a| a == "--verbose");
+    let voters: usize = arg(args, "--voters", 0);
+    let learners: usize = arg(args, "--learners", 0);
+    let report: String = arg(args, "--report", String::new());
+    let mut rep = if report.is_empty() { None } else { Some(std::fs::File::create(&report).expect("report file")) };
+    let mut lines = 0u64;
+    for r in 0..runs {
+        let params = gen_cluster::Params {
+            seed: seed.wrapping_mul(1_000_003).wrapping_add(r),
+            steps,
+            reconfig,
+            emit_p,
+            verbose,
+            shape: if voters > 0 { Some((voters, learners)) } else { None },
+        };
+        let res = gen_cluster::run_one(params, out);
+        lines += res.p_lines as u64;
+        if let Some(f) = rep.as_mut() {
+            let viol: Vec<String> = res.violations.iter().map(|v| format!("{{\"prop\":{},\"text\":{},\"step\":{}}}", json_str(v.prop), json_str(&v.text), v.step)).collect();
+            let stats: Vec<String> = res.stats.iter().map(|(k, v)| format!("{}:{}", json_str(k), v)).collect();
+            let hist: Vec<String> = if res.violations.is_empty() { vec![json_str(&res.history[0])] } else { res.history.iter().map(|h| json_str(h)).collect() };
+            writeln!(f, "{{\"seed\":{},\"p_lines\":{},\"p_end\":{},\"violations\":[{}],\"stats\":{{{}}},\"history\":[{}]}}",
+                res.seed, res.p_lines, json_str(&res.p_end), viol.join(","), stats.join(","), hist.join(",")).unwrap();
+        }
+    }
+    lines
+}
+
+static LAST_PANIC: std::sync::Mutex<String> = std::sync::Mutex::new(String::new());
+
 fn main() {
-    std::panic::set_hook(Box::new(|_| {}));
+    let r = std::panic::catch_unwind(real_main);
+    if r.is_err() {
+        eprintln!("rvh: harness panic: {}", LAST_PANIC.lock().unwrap());
+        std::process::exit(3);
+    }
+}
+
+fn real_main() {
+    // library panics are caught per call (catch_unwind); keep their text for a diagnosis if one escapes
+    std::panic::set_hook(Box::new(|info| {
+        *LAST_PANIC.lock().unwrap() = format!("{}", info);
+    }));
     let args: Vec<String> = std::env::args().collect();
     let cmd = args.get(1).map(|s| s.as_str()).unwrap_or("");
     let seed: u64 = arg(&args, "--seed", 1);
@@ -50,6 +114,7 @@ fn main() {
                 gen_inflights::random(seed, arg(&args, "--cases", 5000), arg(&args, "--len", 40), &mut out)
             }
         }
+        "cluster" => cluster(&args, seed, &mut out),
         "replay" => replay(args.get(2).expect("replay <file>"), &mut out),
         _ => {
             eprintln!("usage: rvh <inflights|...> [--seed N] [--cases N] [--len N] [--exhaustive]");
